@@ -3,6 +3,8 @@ package drivers
 import (
 	"fmt"
 	"math/rand"
+	"os"
+	"path/filepath"
 
 	"github.com/scottyw/tetromino/gameboy/memory"
 
@@ -123,6 +125,43 @@ func serialProg(id string, seed int64, writer bool) *trace.Scenario {
 	return sc
 }
 
+// serialROM: one of the repository's test ROMs on the full machine; every CPU write is logged by the bus hook and the
+// transcript the writer received is compared with the SB writes.
+func serialROM(id, rom string, cycles int) *trace.Scenario {
+	sc := &trace.Scenario{ID: id, Reset: []any{1, "rom", rom, cycles}}
+	perr := machine.Try(func() {
+		img, err := os.ReadFile(rom)
+		if err != nil {
+			panic(err)
+		}
+		m := machine.New(img, machine.Options{})
+		on := true
+		memory.VerifBusObserver = func(mm *memory.Mapper, write bool, addr uint16, value uint8) {
+			if !on || mm != m.M {
+				return
+			}
+			if write && addr >= 0xff00 && addr < 0xff80 {
+				sc.Ev = append(sc.Ev, []any{"w", int(addr), int(value)})
+			} else if !write && (addr == 0xff01 || addr == 0xff02) {
+				sc.Ev = append(sc.Ev, []any{"r", int(addr), int(mm.VerifPeek(addr))})
+			}
+		}
+		defer func() { memory.VerifBusObserver = nil }()
+		for i := 0; i < cycles; i++ {
+			m.Cycle()
+			if i%200000 == 199999 {
+				sc.Ev = append(sc.Ev, []any{"out", outOf(m)})
+			}
+		}
+		on = false
+		sc.Ev = append(sc.Ev, []any{"out", outOf(m)})
+	})
+	if perr != "" {
+		sc.Ev = append(sc.Ev, []any{"panic", perr})
+	}
+	return sc
+}
+
 func serialGen(c *Ctx) {
 	w := trace.NewWriter(c.Out, "serial", 60000)
 	if c.Mode == "rerun" {
@@ -132,7 +171,9 @@ func serialGen(c *Ctx) {
 		}
 		for _, s := range scs {
 			r := s.Reset.([]any)
-			if trace.Str(r[1]) == "bus" {
+			if trace.Str(r[1]) == "rom" {
+				w.Put(serialROM(s.ID, trace.Str(r[2]), trace.Int(r[3])))
+			} else if trace.Str(r[1]) == "bus" {
 				w.Put(serialBus(s.ID, int64(trace.Int(r[2])), trace.Int(r[0]) == 1))
 			} else {
 				w.Put(serialProg(s.ID, int64(trace.Int(r[2])), trace.Int(r[0]) == 1))
@@ -149,6 +190,20 @@ func serialGen(c *Ctx) {
 	for i := 0; i < count; i++ {
 		w.Put(serialBus(fmt.Sprintf("serial-bus-%d", i), rng.Int63n(1<<40), i%4 != 3))
 		w.Put(serialProg(fmt.Sprintf("serial-prog-%d", i), rng.Int63n(1<<40), i%4 != 2))
+	}
+	// the blargg ROMs print their report on the serial port
+	base := filepath.Join(repoDir(), "gameboy", "testdata", "blargg")
+	roms := []string{"cpu_instrs/individual/06-ld r,r.gb", "cpu_instrs/individual/01-special.gb", "instr_timing/instr_timing.gb", "cpu_instrs/individual/03-op sp,hl.gb",
+		"cpu_instrs/individual/05-op rp.gb", "mem_timing/individual/01-read_timing.gb", "cpu_instrs/individual/02-interrupts.gb", "cpu_instrs/individual/08-misc instrs.gb"}
+	nr, cyc := 2, 1200000
+	if c.Thorough() {
+		nr, cyc = len(roms), 6000000
+	}
+	for i := 0; i < nr; i++ {
+		p := filepath.Join(base, roms[(i+int(c.Seed))%len(roms)])
+		if _, err := os.Stat(p); err == nil {
+			w.Put(serialROM(fmt.Sprintf("serial-rom-%d", i), p, cyc))
+		}
 	}
 	w.Close()
 }
